@@ -1,6 +1,7 @@
 package main
 
 import (
+	"strings"
 	"fmt"
 	"go/token"
 	"go/types"
@@ -362,6 +363,15 @@ func (fr *Frame) havocVal(t types.Type, hint string) Term {
 	s := fr.te().SortOf(t)
 	v := fr.vc.fresh(hint, s)
 	fr.assumeTyped(t, v)
+	// an unknown reference value still denotes something that exists now: it is older than anything allocated later
+	if fr.cur != nil {
+		switch types.Unalias(t).Underlying().(type) {
+		case *types.Pointer, *types.Map:
+			fr.vc.assume(Term{fmt.Sprintf("(<= (atime %s) %s)", v.S, fr.cur.Get("clk", SInt).S), SBool})
+		case *types.Slice:
+			fr.vc.assume(Term{fmt.Sprintf("(<= (atime (sarr %s)) %s)", v.S, fr.cur.Get("clk", SInt).S), SBool})
+		}
+	}
 	return v
 }
 
@@ -414,6 +424,7 @@ func (fr *Frame) loopHeader(li *loopInfo) {
 		}
 	}
 	// 2. havoc
+	fr.cur.Havoc("clk", SInt) // earlier iterations may have allocated; loop-carried references are bounded by this clock
 	li.phiFresh = map[*ssa.Phi]Term{}
 	for _, ins := range b.Instrs {
 		phi, ok := ins.(*ssa.Phi)
@@ -749,7 +760,8 @@ func (fr *Frame) opaquePtr(l *Loc) Term {
 }
 
 func (fr *Frame) funcID(f *ssa.Function) Term {
-	n := smtName("fn_" + mangle(f.String()))
+	// a method expression (T.M used as a value) is compiled to a thunk that only forwards to M: same function value
+	n := smtName("fn_" + mangle(strings.TrimSuffix(f.String(), "$thunk")))
 	te := fr.te()
 	te.pre.Add("const:"+n, fmt.Sprintf("(declare-const %s Int)", n))
 	te.pre.Add("ax:"+n, fmt.Sprintf("(assert (> %s 0))", n))
